@@ -9,7 +9,8 @@ CONSTANT MaxDepth
 
 FailKinds == {"assert", "nil", "index", "index_empty", "zerodiv", "overflow", "remove", "remove_empty", "key_strindex",
               "zerodiv_assign", "zerorem_assign", "zerodiv_elem", "assert_sameline", "nil_sameline",
-              "substring_range", "substring_reversed", "delete_range", "delete_reversed", "insert_range", "radix_range"}
+              "substring_range", "substring_reversed", "delete_range", "delete_reversed", "insert_range", "radix_range",
+              "nil_elem", "nil_field"}
 Positions == {"plain", "inif", "inwhile"}
 LevelKinds == {"fn", "method", "callback"}
 
@@ -34,6 +35,11 @@ FailCore ==
       [] kind = "zerorem_assign" -> <<Let("q", I(7)), Let("z", Bin("-", V("d"), V("d"))), OpAssign(V("q"), "%", V("z")), Print(V("q"))>>
       [] kind = "zerodiv_elem" -> <<LetT("xs", "[int...]", List(<<I(7)>>)), Let("z", Bin("-", V("d"), V("d"))), Let("k0", I(0)),
                                     OpAssign(Idx(V("xs"), V("k0")), "/", V("z")), Print(V("xs"))>>
+      \* `get` of nil behind a list element / an object field
+      [] kind = "nil_elem" -> <<LetT("os", "[int?...]", List(<<Nil, I(4)>>)), Let("k", Bin("-", V("d"), V("d"))), Print(Get(Idx(V("os"), V("k"))))>>
+      [] kind = "nil_field" -> <<[k |-> "class", n |-> "HN", export |-> FALSE, fields |-> <<[n |-> "f", ty |-> "int?"]>>,
+                                  ctor |-> <<[ps |-> <<>>, b |-> <<Assign(Fld(Self, "f"), "=", Nil)>>]>>, methods |-> <<>>],
+                                 Let("hn", New("HN", <<>>)), Print(Get(Fld(V("hn"), "f")))>>
       \* built-in range errors (d = 3 at every site)
       [] kind = "substring_range" -> <<Let("s", S("ab")), Print(MCall(V("s"), "substring", <<I(1), Bin("+", V("d"), I(2))>>))>>
       [] kind = "substring_reversed" -> <<Let("s", S("abcdef")), Print(MCall(V("s"), "substring", <<V("d"), I(1)>>))>>
